@@ -717,13 +717,17 @@ impl Ty {
                 res
             }
             Ty::Map(t) => {
+                // walk the tree right to left and insert into an empty map: the keys arrive in
+                // descending order, so the rebuilt tree leans to the left while the one pushed from
+                // Rust leans to the right; reading it back must find every entry in both shapes
                 let go = var(fresh, "mgo");
                 let m = var(fresh, "m");
+                let acc = var(fresh, "macc");
                 let (k, v, l, r) = (var(fresh, "k"), var(fresh, "v"), var(fresh, "l"), var(fresh, "rr"));
                 let res = var(fresh, "v");
-                out.push_str(&format!("{p}let {go} {m} =\n{p}    match {m} with\n{p}    | Tip -> Tip\n{p}    | Bin {k} {v} {l} {r} ->\n"));
+                out.push_str(&format!("{p}let {go} {m} {acc} =\n{p}    match {m} with\n{p}    | Tip -> {acc}\n{p}    | Bin {k} {v} {l} {r} ->\n"));
                 let a = t.rebuild(&v, ind + 8, out, fresh);
-                out.push_str(&format!("{p}        Bin {k} {a} ({go} {l}) ({go} {r})\n{p}let {res} = {go} {x}\n"));
+                out.push_str(&format!("{p}        {go} {l} (map_insert_string {k} {a} ({go} {r} {acc}))\n{p}let {res} = {go} {x} Tip\n"));
                 res
             }
             Ty::Tuple(ts) => {
@@ -781,7 +785,7 @@ impl Ty {
         let mut s = String::new();
         s.push_str("let { Bool, Option, Result, Ordering } = import! std.types\n");
         if self.needs_map() {
-            s.push_str("let { Map } = import! std.map\n");
+            s.push_str("let { Map, insert_string = map_insert_string } = import! std.map\n");
         }
         s.push_str("let array_prim = import! std.array.prim\nlet mk_some y = Some y\n");
         for d in &decls {
